@@ -471,8 +471,10 @@ def run(ctx):
         if not quick:
             exhaustive([[5], [4], [4]], 5000)
             exhaustive([[5, 4], [4, 5]], 12000)
+            exhaustive([[9], [8], [4]], 8000)
+            exhaustive([[5], [4], [5], [4]], 8000)
         # seeded random walks
-        nrand = 900 if quick else 15000
+        nrand = 900 if quick else 40000
         for i in range(nrand):
             if stop():
                 break
